@@ -3,6 +3,7 @@ import FxVerif.Proofs.C05Ext
 import FxVerif.Proofs.C05Prompt
 import FxVerif.Proofs.C05Sol
 import FxVerif.Props.C01
+import FxVerif.Proofs.C06Vote
 /-!
 # C06 — outgoing value is released only once the external chain can no longer run it
 
@@ -518,5 +519,268 @@ example : ∃ ops : List Op, let s := run (init 1 [((0, 0), 100)] {}) ops
   refine ⟨[.observe 1000 .other, .send 0 "0x0000000000000000000000000000000000000001" 0 5 2,
            .reqBatch 0 1 0 "0x0000000000000000000000000000000000000002"], ?_⟩
   decide
+
+/-! ## round 5: the observed height is the height a QUORUM reported (votes of several oracles, `Model/C06Vote.lean`) -/
+
+section votes
+open FxVerif.Model.C06Vote FxVerif.Proofs.C06Vote
+
+/-- what the votes of different oracles must agree on to be summed, as read from the source now: `Attest` looks the
+attestation up under (event nonce, ClaimHash) of the voter's own claim; the `ClaimHash` of the three claim types driven
+here covers the reported external height and the fields that identify the batch / the bridge-call result; `TryAttestation`
+stores the height of the claim it is handed, which is the current voter's -/
+theorem votes_summed_only_when_they_agree :
+    FxVerif.Gen.C06.attestLookupArgs = "claim.GetEventNonce(), claim.ClaimHash()" ∧
+    FxVerif.Gen.C06.observedHeightFromVoter = true ∧
+    (∀ ty ∈ ["MsgSendToExternalClaim", "MsgBridgeCallResultClaim", "MsgBridgeTokenClaim"],
+      covers FxVerif.Gen.C06.claimHashFields ty "BlockHeight" = true ∧
+      covers FxVerif.Gen.C06.claimHashFields ty "EventNonce" = true) ∧
+    covers FxVerif.Gen.C06.claimHashFields "MsgSendToExternalClaim" "TokenContract" = true ∧
+    covers FxVerif.Gen.C06.claimHashFields "MsgSendToExternalClaim" "BatchNonce" = true ∧
+    covers FxVerif.Gen.C06.claimHashFields "MsgBridgeCallResultClaim" "Nonce" = true ∧
+    covers FxVerif.Gen.C06.claimHashFields "MsgBridgeCallResultClaim" "Success" = true := by decide
+
+/-- with that coverage two claims share an attestation only if they report the same height and the same event -/
+theorem claimKey_injective (h h' : Nat) (ev ev' : Ev)
+    (hk : claimKey FxVerif.Gen.C06.claimHashFields h ev = claimKey FxVerif.Gen.C06.claimHashFields h' ev') :
+    h = h' ∧ ev = ev' := by
+  have c1 : covers FxVerif.Gen.C06.claimHashFields "MsgSendToExternalClaim" "BlockHeight" = true := by decide
+  have c2 : covers FxVerif.Gen.C06.claimHashFields "MsgBridgeCallResultClaim" "BlockHeight" = true := by decide
+  have c3 : covers FxVerif.Gen.C06.claimHashFields "MsgBridgeTokenClaim" "BlockHeight" = true := by decide
+  have c4 : covers FxVerif.Gen.C06.claimHashFields "MsgSendToExternalClaim" "TokenContract" = true := by decide
+  have c5 : covers FxVerif.Gen.C06.claimHashFields "MsgSendToExternalClaim" "BatchNonce" = true := by decide
+  have c6 : covers FxVerif.Gen.C06.claimHashFields "MsgBridgeCallResultClaim" "Nonce" = true := by decide
+  have c7 : covers FxVerif.Gen.C06.claimHashFields "MsgBridgeCallResultClaim" "Success" = true := by decide
+  cases ev <;> cases ev' <;> simp [claimKey, evType, FxVerif.Model.C06Vote.pick, c1, c2, c3, c4, c5, c6, c7] at hk ⊢
+  · exact ⟨hk.1, hk.2.1, hk.2.2⟩
+  · rename_i c ok c' ok'
+    refine ⟨hk.1, hk.2.1, ?_⟩
+    cases ok <;> cases ok' <;> simp at hk ⊢
+  · exact hk
+
+/-- non-vacuity of `claimKey_injective` (its hypothesis is satisfiable) and its use: claims that differ only in the
+reported height have different keys -/
+example : claimKey FxVerif.Gen.C06.claimHashFields 7 (.batch 1 2) = claimKey FxVerif.Gen.C06.claimHashFields 7 (.batch 1 2) ∧
+    claimKey FxVerif.Gen.C06.claimHashFields 7 (.batch 1 2) ≠ claimKey FxVerif.Gen.C06.claimHashFields 8 (.batch 1 2) := by
+  decide
+
+/-- a voted history IS a history of the C05 / C06 model: the state reached through any sequence of user operations and
+single votes of the oracles equals the state the base model reaches on the trace — the user operations plus one `observe`
+per quorum-completing vote.  Every theorem above (and every C05 theorem) about `run` therefore holds of voted histories. -/
+theorem voted_history_is_a_history (b : State) (powers : List Nat) (total : Nat) (ops : List VOp) :
+    (vrun (vinit b powers total) ops).base = run b (trace (vinit b powers total) ops) :=
+  vrun_base _ ops _
+
+/-- **the observed height was reported by a quorum.**  In every state reachable through user operations and votes (any
+number of oracles, any powers, any recorded total, any order, oracles reporting whatever heights and events they like),
+every observation that has taken effect — the height `e.height` was stored as the observed external height and ran the
+event handler and both timeout clean-ups — is backed by its voters: each of them submitted a claim for that event nonce with
+exactly that height and exactly that event, they are pairwise DISTINCT oracles (an oracle votes once per event nonce:
+the contiguity check), and their combined power is at least the required power (`threshold · total / 100`, regenerated).  Depends on the claim hash covering the height: with a hash that drops it the
+statement is false (see the `example` below). -/
+theorem observed_height_has_quorum (b : State) (powers : List Nat) (total : Nat) (ops : List VOp) :
+    let s := vrun (vinit b powers total) ops
+    ∀ e ∈ s.obsLog,
+      (∀ o ∈ e.voters, (⟨o, e.nonce, e.height, e.ev⟩ : Vote) ∈ s.voteLog) ∧
+      required total ≤ sumPower (fun o => powers.getD o 0) e.voters ∧ e.voters.Nodup := by
+  intro s e he
+  have hD := (vdist_run FxVerif.Gen.C06.claimHashFields ops _ (vdist_init b powers total)).obs e he
+  have hv : FxVerif.Gen.C06.observedHeightFromVoter = true := by decide
+  have I := vinv_run FxVerif.Gen.C06.claimHashFields hv ops _ (vinv_init _ b powers total)
+  have hp := vrun_powers FxVerif.Gen.C06.claimHashFields ops (vinit b powers total)
+  obtain ⟨hb, hr⟩ := I.obs e he
+  refine ⟨?_, ?_, hD⟩
+  · intro o ho
+    obtain ⟨v, hvm, h1, h2, h3⟩ := hb o ho
+    obtain ⟨h4, h5⟩ := claimKey_injective _ _ _ _ h3
+    have : v = ⟨o, e.nonce, e.height, e.ev⟩ := by
+      cases v; simp only at h1 h2 h4 h5; subst h1 h2 h4 h5; rfl
+    exact this ▸ hvm
+  · have hlt : ∀ a r, below a r = decide (a < r) := by
+      intro a r
+      have : FxVerif.Gen.C01.tallyCmp = .lt := by decide
+      simp [below, this]
+    have := reached_sum _ _ hlt e.voters 0 hr
+    have hpw : power (vrunWith FxVerif.Gen.C06.claimHashFields (vinit b powers total) ops) = fun o => powers.getD o 0 := by
+      funext o
+      show (vrunWith _ _ ops).powers.getD o 0 = _
+      rw [hp.1]; rfl
+    have htot : (vrunWith FxVerif.Gen.C06.claimHashFields (vinit b powers total) ops).total = total := hp.2
+    rw [hpw, htot] at this
+    omega
+
+/-- a claim that does not complete a quorum (and one that is rejected) leaves the whole C05 state as it is — observed
+heights, event nonce, pool, batches, bridge calls, balances: the Lean side of the monitor clause "a vote without a quorum
+changes nothing" -/
+theorem vote_without_quorum_changes_nothing (s : VState) (o n h : Nat) (ev : Ev)
+    (hq : (voteCore FxVerif.Gen.C06.claimHashFields s o n h ev).2.2 = none) : (vote s o n h ev).1.base = s.base := by
+  have := voteCore_base FxVerif.Gen.C06.claimHashFields s o n h ev
+  rw [hq] at this
+  exact this
+
+/-- **a vote releases something only by completing a quorum, at the voter's height, by the release rules** (every
+state of the voted system, every vote): if a batch leaves the store at a vote, that vote completed a quorum — one
+observation `⟨n, h, ev, voters⟩` was logged, with the height and the event of this very claim — and the batch's timeout is
+below that height (or the event executes / supersedes it); if an outgoing bridge call leaves, its timeout has been
+reached by that height.  Nothing leaves at a vote that does not complete a quorum, or whose handler panics. -/
+theorem vote_releases_only_with_quorum (s : VState) (o n h : Nat) (ev : Ev) :
+    let s' := (vote s o n h ev).1
+    (∀ b ∈ s.base.batches, b ∉ s'.base.batches →
+      (∃ voters, s'.obsLog = s.obsLog ++ [⟨n, h, ev, voters⟩]) ∧
+      (b.timeout < h ∨ ∃ t k, ev = .batch t k ∧ b.token = t ∧ b.nonce ≤ k)) ∧
+    (∀ c ∈ s.base.calls, c ∉ s'.base.calls →
+      (∃ voters, s'.obsLog = s.obsLog ++ [⟨n, h, ev, voters⟩]) ∧ c.timeout ≤ h) := by
+  have hv : FxVerif.Gen.C06.observedHeightFromVoter = true := by decide
+  have hh : hObsOf h = h := by simp [hObsOf, hv]
+  intro s'
+  have key0 : (voteCore FxVerif.Gen.C06.claimHashFields s o n h ev).1.base = s.base ∨
+      ((voteCore FxVerif.Gen.C06.claimHashFields s o n h ev).1.base = (step s.base (.observe h ev)).1 ∧
+        ∃ voters, (voteCore FxVerif.Gen.C06.claimHashFields s o n h ev).1.obsLog = s.obsLog ++ [⟨n, h, ev, voters⟩]) := by
+    unfold voteCore
+    split
+    · exact Or.inl rfl
+    split
+    · exact Or.inl rfl
+    simp only
+    split
+    · unfold observeBy
+      simp only [hh]
+      split
+      · rename_i hp
+        left
+        rcases observe_applies_next_nonce s.base h ev with ⟨h1, _⟩ | ⟨_, h2⟩
+        · have hp' : (doObserve s.base h ev).2 = .panic := hp
+          rw [h1] at hp'; cases hp'
+        · exact h2
+      · exact Or.inr ⟨rfl, _, rfl⟩
+    · exact Or.inl rfl
+  have key : s'.base = s.base ∨
+      (s'.base = (step s.base (.observe h ev)).1 ∧ ∃ voters, s'.obsLog = s.obsLog ++ [⟨n, h, ev, voters⟩]) := key0
+  have rel := released_only_by_observation s.base (.observe h ev)
+  refine ⟨?_, ?_⟩
+  · intro b hb hnb
+    rcases key with hk | ⟨hk, hlog⟩
+    · rw [hk] at hnb; exact absurd hb hnb
+    · rw [hk] at hnb
+      obtain ⟨h', ev', hop, hrule⟩ := rel.1 b hb hnb
+      cases hop
+      exact ⟨hlog, hrule⟩
+  · intro c hc hnc
+    rcases key with hk | ⟨hk, hlog⟩
+    · rw [hk] at hnc; exact absurd hc hnc
+    · rw [hk] at hnc
+      rcases rel.2 c hc hnc with ⟨h', ev', hop, hrule⟩ | ⟨k, ok, hop, _⟩
+      · cases hop
+        exact ⟨hlog, hrule⟩
+      · cases hop
+
+/-- **release only after the timeout height was observed by a quorum** — over whole voted histories: from any base state,
+for any oracle set, powers and recorded total, after any list of user operations and votes, if the next vote makes a batch
+(an outgoing bridge call) leave fxcore's store, then oracles holding at least the required power have EACH submitted a
+claim for this event nonce (pairwise distinct oracles) reporting exactly the height `h` that the release rule was evaluated with (`timeout < h`, resp.
+`timeout ≤ h`; or the event executes / supersedes the batch).  One oracle (or any set below the quorum) reporting a
+height beyond a timeout releases nothing. -/
+theorem release_only_after_quorum_observed_height (b0 : State) (powers : List Nat) (total : Nat) (ops : List VOp)
+    (o n h : Nat) (ev : Ev) :
+    let s := vrun (vinit b0 powers total) ops
+    let s' := (vote s o n h ev).1
+    (∀ b ∈ s.base.batches, b ∉ s'.base.batches →
+      (b.timeout < h ∨ ∃ t k, ev = .batch t k ∧ b.token = t ∧ b.nonce ≤ k) ∧
+      ∃ voters, (∀ o' ∈ voters, (⟨o', n, h, ev⟩ : Vote) ∈ s'.voteLog) ∧
+        required total ≤ sumPower (fun o => powers.getD o 0) voters ∧ voters.Nodup) ∧
+    (∀ c ∈ s.base.calls, c ∉ s'.base.calls →
+      c.timeout ≤ h ∧
+      ∃ voters, (∀ o' ∈ voters, (⟨o', n, h, ev⟩ : Vote) ∈ s'.voteLog) ∧
+        required total ≤ sumPower (fun o => powers.getD o 0) voters ∧ voters.Nodup) := by
+  intro s s'
+  have hs' : s' = vrun (vinit b0 powers total) (ops ++ [.vote o n h ev]) := by
+    show _ = vrunWith _ _ _
+    unfold vrunWith
+    rw [List.foldl_append]
+    rfl
+  have hq := observed_height_has_quorum b0 powers total (ops ++ [.vote o n h ev])
+  simp only at hq
+  rw [← hs'] at hq
+  have step := vote_releases_only_with_quorum s o n h ev
+  have back : (∃ voters, s'.obsLog = s.obsLog ++ [⟨n, h, ev, voters⟩]) →
+      ∃ voters, (∀ o' ∈ voters, (⟨o', n, h, ev⟩ : Vote) ∈ s'.voteLog) ∧
+        required total ≤ sumPower (fun o => powers.getD o 0) voters ∧ voters.Nodup := by
+    rintro ⟨voters, hl⟩
+    have hm : (⟨n, h, ev, voters⟩ : Obs) ∈ s'.obsLog := by rw [hl]; simp
+    exact ⟨voters, hq _ hm⟩
+  refine ⟨?_, ?_⟩
+  · intro b hb hnb
+    obtain ⟨hl, hr⟩ := step.1 b hb hnb
+    exact ⟨hr, back hl⟩
+  · intro c hc hnc
+    obtain ⟨hl, hr⟩ := step.2 c hc hnc
+    exact ⟨hr, back hl⟩
+
+/-- non-vacuity of the two: a batch with timeout 3880 is in flight; oracle 1 (300 of 1000) alone reporting height 9999
+releases nothing; the other two reporting 3881 do -/
+example : ∃ ops : List VOp,
+    let s := vrun (vinit (init 1 [((0, 0), 100)] {}) [400, 300, 300] 1000) ops
+    s.base.batches.map (·.timeout) = [3880] ∧
+    (vote s 1 2 9999 .other).1.base.batches.length = 1 ∧
+    (vote (vote s 0 2 3881 .other).1 2 2 3881 .other).1.base.batches.length = 0 := by
+  refine ⟨[.vote 0 1 1000 .other, .vote 1 1 1000 .other, .vote 2 1 1000 .other,
+           .base (.send 0 "0x0000000000000000000000000000000000000001" 0 5 2),
+           .base (.reqBatch 0 1 0 "0x0000000000000000000000000000000000000002")], ?_⟩
+  decide
+
+/-- non-vacuity of `vote_without_quorum_changes_nothing`: the first of three oracles votes -/
+example : (voteCore FxVerif.Gen.C06.claimHashFields (vinit (init 1 [((0, 0), 100)] {}) [400, 300, 300] 1000) 0 1 100 .other).2.2 = none := by
+  decide
+
+/-- `released_means_no_longer_executable` for voted histories (the property's last sentence with the votes inside): from
+an initial state, for any oracle set and any list of user operations and single votes whose resulting observations are
+ones the bridge contract can have produced (`AdmissibleRun` of the trace), whatever fxcore has released can no longer be
+executed on the external chain by any further admissible event -/
+theorem released_means_no_longer_executable_voted (b0 : State) (h0 : IsInit b0) (powers : List Nat) (total : Nat)
+    (ops : List VOp) (ha : AdmissibleRun b0 {} (trace (vinit b0 powers total) ops)) :
+    let s := (vrun (vinit b0 powers total) ops).base
+    let x := (runExt b0 {} (trace (vinit b0 powers total) ops)).2
+    (∀ b ∈ x.created, b ∉ s.batches → ∀ h, ¬ admissible x (.observe h (.batch b.token b.nonce))) ∧
+    (∀ c ∈ x.createdCalls, c ∉ s.calls → ∀ h ok, ¬ admissible x (.observe h (.result c.nonce ok))) := by
+  intro s x
+  have hs : s = run b0 (trace (vinit b0 powers total) ops) := voted_history_is_a_history b0 powers total ops
+  rw [hs]
+  exact released_means_no_longer_executable b0 h0 _ ha
+
+/-- non-vacuity: the trace of an honest voted history (three oracles reporting the same claims) is an admissible run -/
+example : AdmissibleRun (init 1 [((0, 0), 100)] {}) {}
+    (trace (vinit (init 1 [((0, 0), 100)] {}) [400, 300, 300] 1000)
+      [.vote 0 1 1000 .other, .vote 1 1 1000 .other, .vote 2 1 1000 .other,
+       .base (.send 0 "0x0000000000000000000000000000000000000001" 0 5 2),
+       .base (.reqBatch 0 1 0 "0x0000000000000000000000000000000000000002"),
+       .vote 0 2 3000 (.batch 0 1), .vote 2 2 3000 (.batch 0 1)]) := by
+  have ht : trace (vinit (init 1 [((0, 0), 100)] {}) [400, 300, 300] 1000)
+      [.vote 0 1 1000 .other, .vote 1 1 1000 .other, .vote 2 1 1000 .other,
+       .base (.send 0 "0x0000000000000000000000000000000000000001" 0 5 2),
+       .base (.reqBatch 0 1 0 "0x0000000000000000000000000000000000000002"),
+       .vote 0 2 3000 (.batch 0 1), .vote 2 2 3000 (.batch 0 1)] =
+      [.observe 1000 .other, .send 0 "0x0000000000000000000000000000000000000001" 0 5 2,
+       .reqBatch 0 1 0 "0x0000000000000000000000000000000000000002", .observe 3000 (.batch 0 1)] := by rfl
+  rw [ht]
+  simp only [AdmissibleRun, admissible]
+  decide
+
+/-- non-vacuity: three oracles (400 / 300 / 300 of 1000), one of them reports a far higher height; the event is observed
+with the height the other two reported, once the second of them has voted -/
+example : (vrun (vinit (init 1 [((0, 0), 100)] {}) [400, 300, 300] 1000)
+      [.vote 0 1 100 .other, .vote 1 1 99999 .other, .vote 2 1 100 .other]).obsLog = [⟨1, 100, .other, [0, 2]⟩] := by decide
+
+/-- the statement depends on the hash covering the height: with the coverage table of a `ClaimHash` that drops
+`BlockHeight`, the same votes are summed into one attestation, the event is observed with the height only the second
+voter (300 of the required 660) reported, and that voter's height is what the clean-ups compare with -/
+example :
+    (vrunWith tableWithoutHeight (vinit (init 1 [((0, 0), 100)] {}) [400, 300, 300] 1000)
+      [.vote 0 1 100 .other, .vote 1 1 99999 .other, .vote 2 1 100 .other]).obsLog = [⟨1, 99999, .other, [0, 1]⟩] ∧
+    (vrunWith tableWithoutHeight (vinit (init 1 [((0, 0), 100)] {}) [400, 300, 300] 1000)
+      [.vote 0 1 100 .other, .vote 1 1 99999 .other, .vote 2 1 100 .other]).base.obsExt = 99999 ∧
+    (⟨0, 1, 99999, .other⟩ : Vote) ∉ (vrunWith tableWithoutHeight (vinit (init 1 [((0, 0), 100)] {}) [400, 300, 300] 1000)
+      [.vote 0 1 100 .other, .vote 1 1 99999 .other, .vote 2 1 100 .other]).voteLog := by decide
+
+end votes
 
 end FxVerif.Props.C06
